@@ -165,6 +165,27 @@ func holeCase(e *tf.E, r *vh.Rand) {
 
 var strayWords = []string{"|", "%", "++", "*", "+", "?", "(", ")", ";", "=", "=>", "{", "}", "a", `"s"`, "1", "1.5", ",", "@", "\n", "**", "||", "..."}
 
+// every operator spelling of the token table is a stray word too (and gets a fixed case before an
+// operand, between operands and after one)
+func init() {
+	seen := map[string]bool{}
+	for _, w := range strayWords {
+		seen[w] = true
+	}
+	for t := token.Token(33); t < 256; t++ {
+		if t.Len() > 0 {
+			sp := tf.SafeString(t)
+			if sp != "" && !seen[sp] {
+				seen[sp] = true
+				strayWords = append(strayWords, sp)
+			}
+			if sp != "" {
+				fixed = append(fixed, "doc = "+sp+" a ;", "doc = a "+sp+" b ;", "doc = a "+sp+" ;", "doc = ( "+sp+" a ) | b ;")
+			}
+		}
+	}
+}
+
 // mutantCase: token-level damage of a printed expression (drop, insert, duplicate, swap).
 func mutantCase(e *tf.E, r *vh.Rand) {
 	var words []string
